@@ -27,7 +27,7 @@ PROPS = {
     'C09': {'units': ['prep', 'mult', 'pread', 'pphase', 'ptrace'], 'kani': [], 'exclude': r'H_the_preprocessed_row_of_a_constant_commits_its_value'},
     'C08': {'units': ['mmcs', 'hash', 'mbind', 'vbatch', 'vbatchx', 'a4sched', 'a4path'], 'kani': []},
     'C16': {'units': ['meta', 'vrfy', 'serde16', 'manif', 'rcplug'], 'kani': []},
-    'C11': {'units': ['air', 'alu', 'run19', 'tracegen', 'pchain', 'prep'], 'kani': [], 'only': {'run19': r'execute_alu_op', 'prep': r'H_the_preprocessed_row_of_a_constant_commits_its_value'}},
+    'C11': {'units': ['air', 'alu', 'run19', 'tracegen', 'pchain', 'prep', 'sched'], 'kani': [], 'only': {'run19': r'execute_alu_op', 'prep': r'H_the_preprocessed_row_of_a_constant_commits_its_value', 'sched': r'true_iff_every_op_of_the_window_reads_the_same_b'}},
 }
 
 TB_COMMON = ['p3 field types satisfy the field laws the lemmas name; machine field arithmetic treated as mathematical',
